@@ -105,7 +105,7 @@ func c10plus6(p *Prog, r *Report) {
 	}
 	for _, c := range cs {
 		a := argN(c, 0)
-		ok := flowsFrom(a, func(x ssa.Value) bool {
+		ok := allSources(a, func(x ssa.Value) bool { // EVERY source: no alternative round under a node-local condition
 			b, ok := x.(*ssa.BinOp)
 			if !ok || b.Op != token.ADD {
 				return false
